@@ -8,6 +8,7 @@ import msm
 import lists
 import ssr
 import textrules
+import engine
 
 META = {
     "level": "other",
@@ -28,7 +29,7 @@ META = {
 
 def run(ctx, res):
     prog = ctx.prog("K0")
-    tabs = dispatch.coherence(prog, res, ctx.repo)
+    tabs = dispatch.coherence(prog, res, ctx.repo, dec_keys=dispatch.ROUNDTRIP_KEYS)
     memo = {}
     n = 0
     if tabs:
